@@ -214,8 +214,10 @@ class Parser:
             raise TranslateError('unknown identifier %s' % name)
         raise TranslateError('unexpected token %s %s' % (k, v))
 
-def translate_fn(src, rust_name, coq_name, consts):
+def translate_fn(src, rust_name, coq_name, consts, subst=()):
     args, ret, body = find_fn(src, rust_name)
+    for pat, rep in subst:
+        body = re.sub(pat, rep, body)
     env = {}
     coq_args = []
     for a in [x.strip() for x in args.split(',') if x.strip()]:
@@ -314,6 +316,22 @@ def generate(repo):
                    ('offset_and_mask', 'offset_and_mask'), ('items_count', 'items_count')]:
         pure.append('(* src/filter/atomic_bitvec.rs fn %s *)' % rn)
         pure.append(translate_fn(abv, rn, cn, consts))
+    # B+tree serializer arithmetic; NodeMeta is { size: u64 }, whose bincode size is 8 (checked below)
+    nm = struct_fields(S('src/blob/index/bptree/meta.rs'), 'NodeMeta')
+    if [t for _, t in nm] != ['u64']:
+        raise TranslateError('NodeMeta is no longer a single u64: %s' % nm)
+    node_subst = [(r'NodeMeta::serialized_size_default\(\)\s*(\.expect\("[^"]*"\)|\?)?', '8u64'),
+                  (r'\bOk\(', '('), (r'std::mem::size_of', 'size_of')]
+    ser = S('src/blob/index/bptree/serializer.rs')
+    nod = S('src/blob/index/bptree/node.rs')
+    rec = S('src/record/record.rs')
+    pure.append('(* src/blob/index/bptree/serializer.rs fn max_nonleaf_node_capacity *)')
+    pure.append(translate_fn(ser, 'max_nonleaf_node_capacity', 'max_nonleaf_node_capacity', consts, node_subst))
+    pure.append('(* src/blob/index/bptree/node.rs fn serialized_size_with_keys *)')
+    pure.append(translate_fn(nod, 'serialized_size_with_keys', 'serialized_size_with_keys', consts, node_subst))
+    pure.append('(* src/record/record.rs fn blob_offset_offset / checksum_offset *)')
+    pure.append(translate_fn(rec, 'blob_offset_offset', 'blob_offset_offset', consts))
+    pure.append(translate_fn(rec, 'checksum_offset', 'checksum_offset', consts))
     pure_v = '\n'.join(pure) + '\n'
     return consts_v, pure_v, {'consts': {r[0]: r[1] for r in rows}, 'layout': layout}
 
